@@ -5,9 +5,11 @@ be told to raise TransportError during the next transfer (logged as an attempt; 
 
 Operations beyond the plain methods: "fread"/"fwrite" = read/write during which the controller raises (if
 the call gets as far as a transfer); "sread"/"swrite" = read/write with TruncationWarning turned into an
-exception (warnings filter "error"); "enter"/"exit" = a genuine `with view as g:` statement entered at
+exception (warnings filter "error"); "ffree" = free() during which sdram_free raises; [vid, "drop"] = the caller drops its only reference to that
+view (then gc.collect()); "enter"/"exit" = a genuine `with view as g:` statement entered at
 "enter" and left at "exit", normally (None) or by an exception raised in its body ("body": ValueError,
 "truncation": a TruncationWarning, "prev": the exception the previous failing operation raised)."""
+import gc
 import sys
 import warnings
 
@@ -44,6 +46,10 @@ class FakeController(object):
             self.mem[address + i] = b
 
     def sdram_free(self, address, x=None, y=None):
+        if self.fail_next:
+            self.fail_next = False
+            self.attempts.append(["f", address])
+            raise TransportError("timeout, nothing was freed")
         self.log.append(["f", address])
 
 
@@ -87,7 +93,7 @@ def run_case(c):
     mc = FakeController(c["lo"], c["mem"])
     views = [MemoryIO(mc, 1, 2, c["start"], c["end"])]
     blocks = {}                         # view number -> stack of open with-statements
-    last_exc = None
+    last_exc = nv = g = gen = None
     out = []
     for o in c["ops"]:
         mc.log = []
@@ -100,6 +106,16 @@ def run_case(c):
             try:
                 if o[0] == "free":
                     res = value(views[0].free())
+                elif o[0] == "ffree":                             # sdram_free raises during this free()
+                    mc.fail_next = True
+                    res = value(views[0].free())
+                elif o[1] == "drop":
+                    # the caller forgets this view: no reference to it remains in the driver
+                    views[o[0]] = None
+                    view = nv = g = gen = None
+                    last_exc = None
+                    gc.collect()
+                    res = ["none"]
                 else:
                     view = views[o[0]]
                     kind = o[1]
@@ -111,6 +127,8 @@ def run_case(c):
                         kind = kind[1:]
                     if view is None:
                         res = ["noview"]
+                        if kind == "slice" and o[5] is not None:
+                            views.append(None)
                     elif kind == "seek":
                         res = value(view.seek(o[2]) if o[3] is None else view.seek(o[2], o[3]))
                     elif kind == "read":
